@@ -3,7 +3,7 @@ as an extra module next to the repository's own modules and interpreted from thi
 the repository's serialize_value / deserialize_value, Serializable.serialize_header / serialize / deserialize and
 SerializableEnum.serialize_header / serialize / deserialize (none of them overridden here)."""
 from typing import List
-from mpgameserver.serializable import Serializable, SerializableEnum
+from mpgameserver.serializable import Serializable, SerializableEnum, Default
 
 
 class Suit(SerializableEnum):
@@ -37,3 +37,9 @@ class FN(Serializable):
     """fields whose constructed default is not None (an empty list, 5) holding None"""
     e: List[int] = None
     n: int = 5
+
+
+class FD(Serializable):
+    """a field declared with the documented Default sentinel (the constructor replaces it by int())"""
+    a: int = Default
+    b: str = "dflt"
